@@ -54,6 +54,13 @@ func TestCheck(t *testing.T) {
 			timed(it, func() { opseq.Run(it.sp, res, vk.Deadline()) })
 		}
 	}
+	if i == 0 {
+		depth := 4
+		if vk.Thorough() {
+			depth = 6
+		}
+		flushFault(res, depth)
+	}
 	for _, it := range items {
 		if it.whole && it.ownedBy == i {
 			timed(it, func() { runWhole(it.sp, res) })
